@@ -227,6 +227,90 @@ func c17GetSet[T comparable, P Object[T]](w *c17Worker, im *Impl[T, P]) {
 	}
 }
 
+// c17ScoreBatches measures the zero-allocation budget of the scoring methods on a whole indexed family of
+// objects (every effective class of a version): objects are built in batches of 4096, every scoring method is
+// called once on every object of the batch unmeasured (steady state), then again between two readings of the
+// Mallocs counter. A batch that allocates nothing is settled (the budget is 0, so the sum is exact); a batch
+// that allocates is re-measured object by object through measure().
+func c17ScoreBatches[T comparable, P Object[T]](w *c17Worker, im *Impl[T, P], n, every int, build func(idx int, o *T) bool, extra func(o *T)) {
+	const B = 4096
+	ver := im.Ver.Name
+	objs := make([]T, 0, B)
+	run := func() {
+		for i := range objs {
+			for _, sf := range im.Scores {
+				sinkF = sf.F(&objs[i])
+			}
+			if extra != nil {
+				extra(&objs[i])
+			}
+		}
+	}
+	for b := 0; b*B < n; b++ {
+		if b%every != 0 || !w.mine() {
+			continue
+		}
+		objs = objs[:0]
+		for idx := b * B; idx < (b+1)*B && idx < n; idx++ {
+			var o T
+			if build(idx, &o) {
+				objs = append(objs, o)
+			}
+		}
+		if p := Safely(run); p != nil {
+			w.out.Hist["v"+ver+" scoring panicked in a batch (not measured)"]++
+			continue
+		}
+		got := mallocsOf(3, run)
+		w.out.Cases += int64(len(objs) * len(im.Scores))
+		w.out.Objects += int64(len(objs))
+		if got == 0 {
+			w.out.Hist["v"+ver+" scores(batched)=0"] += int64(len(objs) * len(im.Scores))
+			continue
+		}
+		w.out.Hist["v"+ver+" batches re-measured per object"]++
+		for i := range objs {
+			if len(w.out.Violations) >= 50 {
+				break
+			}
+			o := objs[i]
+			vec := P(&o).Vector()
+			for _, sf := range im.Scores {
+				sf := sf
+				w.measure(ver, sf.Name, vec, 0, 0, func() { sinkF = sf.F(&o) })
+			}
+			if extra != nil {
+				w.measure(ver, "Nomenclature", vec, 0, 0, func() { extra(&o) })
+			}
+		}
+	}
+}
+
+// c17ClassBuilder builds the canonical object of class idx of the full product of the given metrics.
+func c17ClassBuilder[T comparable, P Object[T]](im *Impl[T, P], ms []int) (int, func(idx int, o *T) bool) {
+	ver := im.Ver
+	bg := v3bg(ver)
+	n := 1
+	for _, m := range ms {
+		n *= len(ver.Metrics[m].Values)
+	}
+	return n, func(idx int, o *T) bool {
+		for mi, m := range ver.Metrics {
+			if P(o).Set(m.Abv, m.Values[bg[mi]]) != nil {
+				return false
+			}
+		}
+		for _, m := range ms {
+			vals := ver.Metrics[m].Values
+			if P(o).Set(ver.Metrics[m].Abv, vals[idx%len(vals)]) != nil {
+				return false
+			}
+			idx /= len(vals)
+		}
+		return true
+	}
+}
+
 // C17Worker is the entry point of one measuring process.
 func C17Worker(shard, n int, tier string) {
 	runtime.GOMAXPROCS(1)
@@ -288,6 +372,26 @@ func C17Worker(shard, n int, tier string) {
 		w.measure("4.0", "Nomenclature", vec, 0, 0, func() { sinkS = o.Nomenclature() })
 	})
 	c17GetSet(w, I40)
+	// the scoring methods on every effective class of every version (v2: every 8th batch in the quick tier)
+	{
+		every2 := 8
+		if thorough {
+			every2 = 1
+		}
+		n2, b2 := c17ClassBuilder(I20, []int{0, 1, 2, 3, 4, 5, 6, 7, 8, 9, 10, 11, 12, 13})
+		c17ScoreBatches(w, I20, n2, every2, b2, nil)
+		v3 := []int{0, 1, 2, 3, 4, 5, 6, 7, 8, 9, 10, 11, 12, 13}
+		n30, b30 := c17ClassBuilder(I30, v3)
+		c17ScoreBatches(w, I30, n30, 1, b30, nil)
+		n31, b31 := c17ClassBuilder(I31, v3)
+		c17ScoreBatches(w, I31, n31, 1, b31, nil)
+		c17ScoreBatches(w, I40, spec.V4NumClasses, 1, func(idx int, o *CVSS40T) bool {
+			rp := CanonRepr(spec.V4ClassFromIndex(idx))
+			oo, err := rp.Object()
+			*o = oo
+			return err == nil
+		}, func(o *CVSS40T) { sinkS = o.Nomenclature() })
+	}
 	// non-canonical accepted inputs: explicit not-defined values, shuffled v3 orders
 	for _, ver := range spec.Versions {
 		for rot := 0; rot < 6; rot++ {
@@ -370,7 +474,7 @@ func C17Worker(shard, n int, tier string) {
 
 // CheckC17 — allocation budget.
 func CheckC17(r *Report) {
-	r.Rule = "E5 numspace: heap allocations of ONE call (runtime.ReadMemStats Mallocs delta, GOMAXPROCS(1), GC off, after a warm-up call, minimum of 3 repetitions, 20 re-measurements before reporting) for Vector() (=1) and successful ParseVector (<=1) on every presence subset of optional metrics with rotating values (v2: every temporal x environmental combination; v3: 2^14 x rotations; v4: 2^21 x rotations), Get / Set(legal) / Set(illegal) on every metric and value (=0), every scoring method, Nomenclature and Rating (=0); 16 worker processes; distinct = measured (call, object) cases"
+	r.Rule = "E5 numspace: heap allocations of ONE call (runtime.ReadMemStats Mallocs delta, GOMAXPROCS(1), GC off, after a warm-up call, minimum of 3 repetitions, 20 re-measurements before reporting) for Vector() (=1) and successful ParseVector (<=1) on every presence subset of optional metrics with rotating values (v2: every temporal x environmental combination; v3: 2^14 x rotations; v4: 2^21 x rotations), Get / Set(legal) / Set(illegal) on every metric and value (=0), every scoring method, Nomenclature and Rating (=0); in addition every scoring method (and v4 Nomenclature) on the canonical object of EVERY effective class (v3.0/v3.1: 16,588,800 each; v4.0: 15,116,544; v2.0: 139,968,000 in the thorough tier, every 8th batch of 4096 in the quick tier), measured per batch of 4096 objects (budget 0, so a batch sum of 0 settles every call in it; a batch that allocates is re-measured call by call); 16 worker processes; distinct = measured (call, object) cases"
 	exe, err := os.Executable()
 	if err != nil {
 		r.Note("cannot locate own executable: %v", err)
